@@ -7,7 +7,9 @@
    failed or read-only leaves the list unchanged.  Because t ranges over all reachable states and
    h over all live handles, every order of frees is covered. *)
 From Coq Require Import ZArith List.
+From Coq Require Import Lia.
 From Arsenal Require Import Util Bits Gran Tlsf TlsfStep TlsfProps.
+From Arsenal Require Linear LinearInv LinearAlloc LinearFree LinearStep LinearSwap LinearVisit LinearProps.
 Open Scope Z_scope.
 
 Theorem C06_tlsf_step_exact : forall h gr size ops o,
@@ -20,3 +22,34 @@ Print Assumptions C06_tlsf_step_exact.
 Example C06_tlsf_nonvacuous :
   cfg_ok 1024 4096 /\ Forall op_ok ex_ops /\ length (live (run (tlsf_init HVam 1024 4096) ex_ops)) = 3%nat.
 Proof. exact (conj ex_cfg_ok (conj ex_ops_ok ex_live_three)). Qed.
+
+Module LinearHalf.
+Import Linear LinearInv LinearAlloc LinearFree LinearStep LinearSwap LinearVisit LinearProps.
+Import ListNotations.
+
+(* Linear half: exact effect of every admissible step on the live items, and freeing ANY live
+   item succeeds (all free orders: front, back, middle, lower and upper stack, both halves of a
+   ring buffer). *)
+Theorem C06_linear_step_exact : forall h gr size l o,
+  lcfg_ok gr size -> lreach h gr size l -> LinearStep.op_ok l o ->
+  LinearStep.live_effect l o (fst (Linear.step l o)) (snd (Linear.step l o)).
+Proof. exact linear_step_exact. Qed.
+Print Assumptions C06_linear_step_exact.
+
+Theorem C06_linear_free_live_succeeds : forall h gr size l x,
+  lcfg_ok gr size -> lreach h gr size l -> In x (LinearInv.live l) ->
+  Linear.o_kind (snd (Linear.step l (Linear.OFree (s_off x + 1)))) = ROk.
+Proof. exact linear_free_live_succeeds. Qed.
+Print Assumptions C06_linear_free_live_succeeds.
+
+(* non-vacuity (linear): an admissible history through ring buffer, lazy deletion and vector swap *)
+Example C06_linear_nonvacuous :
+  lcfg_ok 1 100 /\ lreach HVam 1 100 (lrun (linear_init HVam 1 100) LinearStep.ex_ops) /\
+  map s_off (LinearInv.live (lrun (linear_init HVam 1 100) LinearStep.ex_ops)) = [0; 24]%Z.
+Proof.
+  split; [split; [lia|exists 0; split; [lia|reflexivity]]|].
+  split; [exists LinearStep.ex_ops; split; [exact (proj1 LinearStep.ex_ops_ok)|reflexivity]|].
+  exact (proj1 (proj2 LinearStep.ex_ops_ok)).
+Qed.
+
+End LinearHalf.
